@@ -674,6 +674,11 @@ def _unit(args):
     return cnt, tot, vs, sample, sigs, mode
 
 
+def _size_key(v):
+    """Smallest witness first: blocks, assignments, then text."""
+    return (v["case"]["n"], sum(len(b) for b in v["case"]["bodies"]), len(v["what"]), v["what"])
+
+
 def _shard(units):
     """A shard is a list of units (plan entry, shape, body of the head block); few large shards keep the pool's
     dispatch cost negligible on a loaded machine."""
@@ -685,12 +690,20 @@ def _shard(units):
         o[0] += cnt
         for k, x in tot.items():
             o[1][k] = max(o[1].get(k, 0), x) if k.startswith("max_") else o[1].get(k, 0) + x
+        o[2].extend(vs)
         for k, x in sigs.items():
-            if k not in o[4]:
-                o[2].extend(v for v in vs if v["sig"] == k)
             o[4][k] = o[4].get(k, 0) + x
         if o[3] is None:
             o[3] = sample
+    for o in out.values():
+        # keep the two smallest witnesses of every signature
+        o[2].sort(key=_size_key)
+        kept, cnt = [], {}
+        for v in o[2]:
+            cnt[v["sig"]] = cnt.get(v["sig"], 0) + 1
+            if cnt[v["sig"]] <= 2:
+                kept.append(v)
+        o[2] = kept
     return [(o[0], o[1], o[2], o[3], o[4], mode) for mode, o in sorted(out.items())]
 
 
@@ -756,7 +769,7 @@ def run(ctx):
     graphs = {"explicit": 0, "implicit": 0}
     allv = [v for r in res for v in r[2]]
     # smallest witness first: blocks, assignments, then text length
-    allv.sort(key=lambda v: (v["case"]["n"], sum(len(b) for b in v["case"]["bodies"]), len(v["what"]), v["what"]))
+    allv.sort(key=_size_key)
     ctx.add_violations(allv)
     for r in res:
         graphs[r[5]] += r[0]
